@@ -56,7 +56,7 @@ ASSUMPTIONS = [
   "history events only use public state arrays (qpos, qvel, eq_active) and mjw.reset_data(reset=mask); the states they write are "
   "accepted by MuJoCo (finite qacc < 1e5, no warning)",
 ]
-BUDGET = {"quick": 170, "thorough": 1500}
+BUDGET = {"quick": 300, "thorough": 1500}
 
 PROFILE = gen.profile(
   **{
